@@ -241,6 +241,9 @@ func main() {
 			{Resident: 2, Delays: []int{7, 50}, NoAddrAttribution: true, SlowScalar: 50, Horizon: 80000},
 			{Resident: 2, Delays: []int{7, 50}, NoAddrAttribution: true, SlowVector: 30, Horizon: 80000},
 			{Resident: 2, Delays: []int{7, 50}, NoAddrAttribution: true, SlowScalar: 20, SlowVector: 20, SlowInst: 10, Horizon: 80000},
+			// the mi300a builder's knobs (transaction pipeline of 8 lanes among them) against a slow vector memory:
+			// transactions of one instruction leave the multi-lane pipeline under back-pressure
+			{Scoreboard: true, Resident: 2, Delays: []int{7, 50}, NoAddrAttribution: true, MI300AKnobs: true, SlowVector: 12, Horizon: 80000},
 		}
 		for _, o := range slow {
 			for _, a := range memFam {
